@@ -38,6 +38,7 @@ type c15Fn struct {
 	Name   string `json:"name"`
 	Callee string `json:"callee,omitempty"` // function of the same module or of an imported one it calls
 	Shadow string `json:"shadow,omitempty"` // a local of this function named like a method/type of its own module (legal shadowing)
+	TypeCall string `json:"type_call,omitempty"` // an IMPORTED type of which this function builds an object and calls the method 叫
 }
 
 type c15Scenario struct {
@@ -147,6 +148,14 @@ func (md *c15Model) call(fn string, depth int) string {
 		for _, f := range m.Funcs {
 			if f.Name == fn {
 				res := fn
+				if f.TypeCall != "" {
+					// the type's method runs in the type's own module, whoever calls it
+					for _, hm := range md.mods {
+						if hm.HasType && c15Tag(hm.Name)+"型" == f.TypeCall {
+							return res + ">叫>" + md.call(hm.Funcs[0].Name, depth+1)
+						}
+					}
+				}
 				if f.Shadow != "" {
 					res += "|影"
 				}
@@ -205,6 +214,10 @@ func c15Source(m *c15Mod, isMain bool, mainStmts []string) string {
 		}
 		if f.Shadow == "" && f.Callee != "" {
 			self = "“" + f.Name + "”"
+		}
+		if f.TypeCall != "" {
+			fmt.Fprintf(&sb, "如何%s？\n\t令物 = （新建%s）\n\t令叫果 = 以物（叫）\n\t令头 = 以“%s”（拼接：“>”）\n\t输出以头（拼接：叫果）\n\n", f.Name, f.TypeCall, f.Name)
+			continue
 		}
 		if f.Callee == "" {
 			fmt.Fprintf(&sb, "如何%s？\n%s\t输出%s\n\n", f.Name, head, self)
@@ -308,6 +321,7 @@ func runC15(t *zsim.Tape, cfg *hlib.Config) *hlib.Outcome {
 			cands = append(cands, f.Name)
 		}
 		seen := map[string]bool{}
+		var types []string
 		for _, imp := range m.Imports {
 			if dep, ok := byName[imp.Target]; ok && imp.Target != m.Name && !seen[imp.Target] {
 				seen[imp.Target] = true
@@ -327,10 +341,18 @@ func runC15(t *zsim.Tape, cfg *hlib.Config) *hlib.Outcome {
 					if strings.Contains(n, "法") {
 						cands = append(cands, n)
 					}
+					if strings.HasSuffix(n, "型") {
+						types = append(types, n)
+					}
 				}
 			}
 		}
 		for j := range m.Funcs {
+			if len(types) > 0 && t.Draw(2) == 1 {
+				// this function builds an object of an imported type and calls its method
+				m.Funcs[j].TypeCall = types[t.Draw(len(types))]
+				continue
+			}
 			if t.Draw(2) == 1 {
 				c := cands[t.Draw(len(cands))]
 				// own-module callee: only a later function, so there is no recursion
